@@ -11,9 +11,13 @@ var pools map[*value][]value
 // PoolReuses counts Get calls served from the free list (C12 cover goal).
 var poolReuses, poolNews int
 
+// poolAdversarial: Get may return any freed object or a new one.
+var poolAdversarial bool
+
 func resetModels(t *Task) {
 	pools = map[*value][]value{}
 	poolReuses, poolNews = 0, 0
+	poolAdversarial = t != nil && t.PoolMode == 1
 	ptrSerial = nil
 	resetRegexpModel()
 }
@@ -24,7 +28,7 @@ func init() {
 		l := pools[p]
 		if len(l) > 0 {
 			k := len(l) - 1
-			if curTask != nil && curTask.PoolMode == 1 {
+			if poolAdversarial {
 				// adversarial: any freed object, or a new one
 				c := curPC.choose(len(l) + 1)
 				if c == len(l) {
@@ -44,6 +48,14 @@ func init() {
 		pools[p] = append(pools[p], args[1])
 		return nil
 	}
+}
+
+func init() {
+	externals[hname("vPoolAdversarial")] = func(fr *frame, args []value) value {
+		poolAdversarial = args[0].(bool)
+		return nil
+	}
+	externals[hname("vPoolReuses")] = func(fr *frame, args []value) value { return poolReuses }
 }
 
 func poolNew(fr *frame, p *value) value {
